@@ -286,6 +286,15 @@ def run(ctx):
             failures += report(ctx, {'clause': 'correspondence', 'a_root': a[0], 'b_root': b[0]},
                                {'A': a, 'B': b, 'beartype': v, 'expected': 'Core/Door.v is_subhint'},
                                'the model of is_subhint and beartype disagree')
+    # wrappers of hints outside the modelled grammar: TypeVars, callables, NewTypes, generics
+    extra = run_impl('c19_impl.py', {'extra_coherence': True, 'cases': []})[0]
+    ctx.extra['extra_coherence_hints'] = sorted(extra)
+    for name, co in extra.items():
+        ctx.evaluations += 1
+        bad = [k for k, v in co.items() if v is False or k == 'error']
+        if bad:
+            failures += report(ctx, {'clause': 'wrapper_coherence', 'which': bad[0], 'hint_kind': name.split('[')[0].split('(')[0].split('_')[0]},
+                               {'hint': name, 'observed': co}, 'TypeHint wrapper of %s is not coherent: %s' % (name, bad[0]))
     if proof_err is not None and not failures:
         ctx.broken(f'{PROP} ({proof_err.what})', proof_err.log)
 
